@@ -1797,6 +1797,15 @@ class Executor:
             if injected:
                 res.append(p.fork())
             if matches:
+                stmt = getattr(p.exc, "stmt", "") or ""
+                if injected and set(suppress) <= {"FileNotFoundError"} and (stmt.startswith("os.unlink(") or stmt.startswith("os.remove(")):
+                    # the one failure of a removal that this block tolerates is "the file is already gone": same end state as a removal that
+                    # succeeded, and nothing the caller was owed is lost - not a swallowed failure
+                    inj = p.ghost.get("injected_failures", [])
+                    if inj:
+                        inj.pop()
+                    p.ghost["events"] = [dict(e, attempted=False) if (e.get("attempted") and e.get("name") in ("os.unlink", "os.remove")) else e
+                                         for e in p.ghost.get("events", [])]
                 p.status, p.exc = "run", None
                 p.ghost.setdefault("suppressed", []).append(s.lineno)
             res.append(p)
